@@ -57,14 +57,15 @@ def list_depth(T):
 
 
 @st.composite
-def hl_step(draw, n, names, partitioned, positional_only=False, depth=None):
+def hl_step(draw, n, names, partitioned, positional_only=False, depth=None, sortable=True):
     kinds = (POSITIONAL + ([] if positional_only else ["num", "flatten", "sum", "add1", "is_none"])
              + (["repartition", "repartition", "partitions", "concat_self", "concat_self_len", "concat_self_at"] if partitioned
                 else ["materialized", "range", "field"]))
     if partitioned and depth is not None and not positional_only:
         # operations whose partitioned implementation decides between "per partition" and "across partitions" by the axis: the
         # outermost axis spelled 0 and -depth, inner axes in both spellings (added after the seeded changes C03-e and C09-e were missed)
-        kinds = kinds + ["pad_none"] * 3 + ["reduce_axis"] * 3 + ["num_axis"] + ["sort_axis"] * 5
+        # (sorting option-type data is C06's recorded finding argsort_with_missing: only option-free types are sorted here)
+        kinds = kinds + ["pad_none"] * 3 + ["reduce_axis"] * 3 + ["num_axis"] + (["sort_axis"] * 5 if sortable else [])
     op = draw(st.sampled_from(kinds))
     b = st.one_of(st.none(), st.integers(-n - 2, n + 2))
     if op == "concat_self_at":
@@ -181,7 +182,7 @@ def ppartition_cases(draw):
     lens = {-1: n}
     for j in range(draw(st.integers(1, 8))):
         src = draw(st.sampled_from(sorted(lens))) if draw(st.integers(0, 2)) == 0 else -1
-        spec = draw(hl_step(lens[src], names, True, encoded, list_depth(T)))
+        spec = draw(hl_step(lens[src], names, True, encoded, list_depth(T), "'option'" not in repr(T)))
         steps.append({"src": src, "spec": spec})
         if spec["op"] == "range":
             lens[j] = _after(lens[src], spec)
